@@ -3,7 +3,7 @@ import TTV.Model.Matchers
 import TTV.Spec.C06
 /-! Driver glue for C06: codecs between S-expressions and `Matchers.Input` / `Matchers.Trace`.
 
-Values   `(i n)` `(s c…)` `(b c…)` `none` `(l v…)` `(d (k v)…)` `(o tag (a v)…)` `(ei cls arg)` `(ev cls arg)`
+Values   `(i n)` `(s c…)` `(b c…)` `none` `(l v…)` `(t v…)` `(d (k v)…)` (keys: see `key?`) `(o tag (a v)…)` `(ei cls arg)` `(ev cls arg)`
          `(fr v)` `(fx cls arg)`
 Matchers see `m?` below; sugar: `(containsAll v…)` = `MatchesAll(*map(Contains, items))`,
          `(raisesFn cls…)`/`(raisesInst cls arg)` = `raises(exception)`,
@@ -36,16 +36,46 @@ def ascending : List Nat → Bool
   | a :: b :: rest => a < b && ascending (b :: rest)
   | _ => true
 
+/-- dict keys: a bare number `n` = the one-letter string `chr(97+n)`; `(ki n)` int; `(kb c…)` bytes; `kn` None;
+`(kt n…)` tuple of ints -/
+def key? : Sexp → Option Key
+  | .atom "kn" => some .none
+  | .list [.atom "ki", n] => (int? n).map .int
+  | .list (.atom "kb" :: cs) => (cs.mapM nat?).map .bytes
+  | .list (.atom "kt" :: ns) => (ns.mapM int?).map .tup
+  | x => (nat? x).map .str
+
+def lexLtI : List Int → List Int → Bool
+  | [], [] => false
+  | [], _ :: _ => true
+  | _ :: _, [] => false
+  | a :: as, b :: bs => a < b || (a == b && lexLtI as bs)
+
+/-- the canonical order in which the harness builds dicts (None, ints, strs, bytes, tuples), so that equal
+dicts are structurally equal values -/
+def keyRank : Key → Nat
+  | .none => 0 | .int _ => 1 | .str _ => 2 | .bytes _ => 3 | .tup _ => 4
+def keyLt : Key → Key → Bool
+  | .int a, .int b => a < b
+  | .str a, .str b => a < b
+  | .bytes a, .bytes b => lexLt a b
+  | .tup a, .tup b => lexLtI a b
+  | a, b => keyRank a < keyRank b
+def ascendingK : List Key → Bool
+  | a :: b :: rest => keyLt a b && ascendingK (b :: rest)
+  | _ => true
+
 partial def v? : Sexp → Option V
   | .atom "none" => some .none
   | .list [.atom "i", n] => (int? n).map .int
   | .list (.atom "s" :: cs) => (cs.mapM nat?).map .str
   | .list (.atom "b" :: cs) => (cs.mapM nat?).map .bytes
   | .list (.atom "l" :: xs) => (xs.mapM v?).map .list
+  | .list (.atom "t" :: xs) => (xs.mapM v?).map .tuple
   | .list (.atom "d" :: kvs) => do
-      let ps ← kvs.mapM (pair? nat? v?)
-      -- dicts are built with ascending keys (then Python's == is structural equality)
-      if ascending (ps.map (·.1)) then some (.dict (ps.map (·.1)) (ps.map (·.2))) else none
+      let ps ← kvs.mapM (pair? key? v?)
+      -- dicts are built with keys in the canonical order (then Python's == is structural equality)
+      if ascendingK (ps.map (·.1)) then some (.dict (ps.map (·.1)) (ps.map (·.2))) else none
   | .list (.atom "o" :: t :: kvs) => do
       let ps ← kvs.mapM (pair? nat? v?)
       if ascending (ps.map (·.1)) then some (.obj (← nat? t) (ps.map (·.1)) (ps.map (·.2))) else none
@@ -113,7 +143,7 @@ partial def m? : Sexp → Option M
   | .list [.atom "len", n] => (int? n).map (.leaf ∘ .hasLength)
   | .list [.atom "always"] => some (.leaf .always)
   | .list [.atom "never"] => some (.leaf .never)
-  | .list (.atom "keys" :: ks) => (ks.mapM nat?).map (.leaf ∘ .keysEqual)
+  | .list (.atom "keys" :: ks) => (ks.mapM key?).map (.leaf ∘ .keysEqual)
   | .list [.atom "exctype", cs] => (list? excCls? cs).map (.leaf ∘ .excType)
   | .list [.atom "exctypeV", cs, vm] => do some (.excTypeV (← list? excCls? cs) (← m? vm))
   | .list [.atom "exctypeRe", cs, o] => do
@@ -140,8 +170,8 @@ partial def m? : Sexp → Option M
       let ps ← ams.mapM (pair? nat? m?)
       some (.structure (ps.map (·.1)) (ps.map (·.2)))
   | .list (.atom "dict" :: kind :: kms) => do
-      let ps ← kms.mapM (pair? nat? m?)
-      if ascending (ps.map (·.1)) then some (.dict (← dictKind? kind) (ps.map (·.1)) (ps.map (·.2))) else none
+      let ps ← kms.mapM (pair? key? m?)
+      if ascendingK (ps.map (·.1)) then some (.dict (← dictKind? kind) (ps.map (·.1)) (ps.map (·.2))) else none
   | .list [.atom "annot", m] => (m? m).map .annotate
   | .list [.atom "after", f, a, m] => do some (.after (← preFn? f) (← bool? a) (← m? m))
   | _ => none
